@@ -80,6 +80,26 @@ ApiFx(S, g, kind, name, prog, slow) ==
                   dl |-> IF kind = "call" THEN 0 ELSE S.now + S.rt]
        IN EmitC([S0 EXCEPT !.nreq = id, !.ops = (g :> op) @@ @], ReqKind(kind), id, x)
 
+\* CallProgressive: the application feeds the call through a callback, chunk by chunk.  n = number
+\* of chunks the callback has; how = how the feed ends: the last chunk says progress = false
+\* ("false"), leaves the option out ("unset" - final as well, says the documentation), or the
+\* callback fails instead of delivering the n-th chunk ("err").  Every chunk is a CALL under the
+\* same request id, all but the last marked `progress' (x = "p"), in order; a failing callback ends
+\* the feed with CANCEL (killnowait) - or, if it fails before anything was sent, the operation
+\* returns its error.  Afterwards the operation is a call like any other.
+CallProgFx(S, g, name, prog, slow, n, how) ==
+  LET gone(T) == [T EXCEPT !.ops = (g :> [kind |-> "call", req |-> 0, st |-> "done", dl |-> 0, prog |-> prog, name |-> name,
+                                           slow |-> slow, busy |-> 0, rout |-> <<>>]) @@ @]
+  IN IF ~S.conn THEN Ret(gone(S), g, "notconn", 0)
+     ELSE IF how = "err" /\ n = 1 THEN Ret(gone(S), g, "cberr", 0)
+     ELSE LET id   == S.nreq + 1
+              op   == [kind |-> "call", req |-> id, st |-> "waiting", prog |-> prog, name |-> name, slow |-> slow, busy |-> 0,
+                       rout |-> <<>>, dl |-> 0]
+              sent == IF how = "err" THEN n - 1 ELSE n
+              S1   == [S EXCEPT !.nreq = id, !.ops = (g :> op) @@ @,
+                                !.emit = @ \o [k \in 1..sent |-> [k |-> "CALL", req |-> id, x |-> IF k < n THEN "p" ELSE ""]]]
+          IN IF how = "err" THEN EmitC(S1, "CANCEL", id, "killnowait") ELSE S1
+
 \* --------------------------------------------------------------------------
 \* a message carrying a request id arrives: mk = its type ("RESULTP" = progressive
 \* RESULT), a = the subscription / registration id it assigns
